@@ -132,3 +132,27 @@ Proof. exact Toy.find_total. Qed.
 Example C14_vertex_instance_runs :
   match Toy.find [8; 9; 1; 10; 8] with Ok (Some v, rem) => length (v_tracks nat nat v) + length rem | _ => 0 end = 5.
 Proof. vm_compute. reflexivity. Qed.
+
+(* t_range over binary64: with the real closest_t (coq/Recon/Helix.v) as the kernel, t_inner and t_outer of a returned
+   track are NaN or in [-pi, pi] (through C16_closest_t_range_partial; standard FloatAxioms) *)
+From AG Require Recon.Helix_proofs.
+Theorem C14_t_range_binary64 :
+  forall (L : libm) (tol : PrimFloat.float) (iters : nat),
+  (forall y x, Helix_proofs.rn (latan2 L y x)) ->
+  forall (flt feq : PrimFloat.float -> PrimFloat.float -> bool) fcmp fnan fadd fsub fmul fhalf fabs fzero
+    guess6 bump point_val nm sd_tol_ok (pts : list spoint),
+  (forall x y, fnan x = false -> fnan y = false -> fcmp x y <> None) ->
+  (forall a b p, In a pts -> In b pts -> In p pts ->
+     fnan (dev PrimFloat.float spoint sp_r fsub fabs (fhalf (fadd (sp_r a) (sp_r b))) p) = false) ->
+  (forall p q, In q pts -> fnan (point_val p q) = false) ->
+  (forall (c : list PrimFloat.float -> res PrimFloat.float) s n,
+     (forall p, length p = n -> c p <> Panic /\ forall k, c p <> Err k) ->
+     Forall (fun v => length v = n) s -> s <> [] ->
+     exists v, nm c s = Ok (Some v) /\ length v = n) ->
+  (forall f m l, length (guess6 pts f m l) = 6) -> sd_tol_ok = true -> 3 <= length pts ->
+  forall tr,
+  fit_cluster_to_helix PrimFloat.float spoint sp_r (sp_x L) (sp_y L) flt feq fcmp fnan fadd fsub fmul fhalf fabs fzero
+    guess6 bump point_val (fun hp q => closest_t L (helix_of_params hp) q tol iters) nm sd_tol_ok pts = Ok tr ->
+  Helix_proofs.rn (tr_t_inner PrimFloat.float tr) /\ Helix_proofs.rn (tr_t_outer PrimFloat.float tr).
+Proof. exact fit_t_range_binary64_lemma. Qed.
+Print Assumptions C14_t_range_binary64.
